@@ -627,6 +627,28 @@ pub fn gen_file(rng: &mut Rng, sc: SizeClass) -> Workload {
             raw_len: raw.len(),
         });
         junk(rng, &mut file);
+        if rng.chance(1, 4) {
+            // a tiny member: a valid wrapped stream whose plaintext is below the scanner's
+            // acceptance threshold (probed successfully, then left as literal bytes)
+            let tiny_len = rng.range(20, 1000) as usize;
+            let tiny = gen_plaintext(rng, tiny_len);
+            let tiny = &tiny[..tiny.len().min(1000)];
+            let c = Compressor::random(rng);
+            let raw = c.compress(tiny);
+            let w = match rng.below(3) {
+                0 => Wrapper::Zlib(rng.below(4) as u8),
+                1 => Wrapper::Gzip(0),
+                _ => Wrapper::Zip(3, 0),
+            };
+            let wrapped = wrap(rng, &w, &raw, tiny);
+            file.extend_from_slice(&wrapped);
+            members.push(Member {
+                compressor: c,
+                wrapper: w,
+                plain_len: tiny.len(),
+                raw_len: raw.len(),
+            });
+        }
         if rng.chance(1, 6) {
             // a long literal stretch (exercises the 64 KiB literal copy loop when large)
             let n = if rng.chance(1, 4) { rng.range(60000, 140000) } else { rng.range(100, 3000) } as usize;
@@ -730,4 +752,90 @@ pub fn gen_boundary_distance_plaintext(rng: &mut Rng, w: u32, rounds: usize) -> 
         }
     }
     out
+}
+
+/// a file whose single member compresses better than 258:1 (a run or a short period of
+/// `plain_len` bytes), wrapped without junk: the file is tiny compared with its expanded form
+pub fn gen_high_ratio_file(rng: &mut Rng, plain_len: usize) -> Vec<u8> {
+    let p = rng.range(1, 4) as usize;
+    let pat: Vec<u8> = (0..p).map(|_| b'a' + rng.below(26) as u8).collect();
+    let plain: Vec<u8> = (0..plain_len).map(|i| pat[i % p]).collect();
+    let c = match rng.below(3) {
+        0 => Compressor::Zlib {
+            level: *rng.pick(&[6, 9]),
+            strategy: 0,
+            window_bits: 15,
+            mem_level: 8,
+        },
+        1 => Compressor::Libdeflate { level: rng.range(6, 12) as i32 },
+        _ => Compressor::ZlibNg { level: rng.range(6, 9) as i32 },
+    };
+    let raw = c.compress(&plain);
+    let w = match rng.below(3) {
+        0 => Wrapper::Zlib(2),
+        1 => Wrapper::Gzip(0),
+        _ => Wrapper::Zip(4, 0),
+    };
+    wrap(rng, &w, &raw, &plain)
+}
+
+/// a file whose expanded form has a chunk boundary exactly at a multiple of 128 KiB (zstd's
+/// block size): incompressible literal bytes sized so that the tag of the following stream chunk
+/// lands on the boundary, then a zlib-wrapped member
+pub fn gen_block_aligned_file(rng: &mut Rng, blocks: usize) -> Vec<u8> {
+    // expanded form: version byte, literal tag, 3 byte varint, literal (noise + 2 byte zlib header)
+    let literal = blocks * 128 * 1024 - 5;
+    let mut f = gen_incompressible(rng, literal - 2);
+    let plain = gen_plaintext(rng, 2200);
+    let raw = Compressor::Zlib {
+        level: 6,
+        strategy: 0,
+        window_bits: 15,
+        mem_level: 8,
+    }
+    .compress(&plain);
+    f.extend_from_slice(&wrap(rng, &Wrapper::Zlib(2), &raw, &plain));
+    f
+}
+
+/// end offsets of the blocks of the first frame of a zstd blob (harness-owned parser of the
+/// frame and block headers; used only to place torn-write cuts)
+pub fn zstd_block_ends(blob: &[u8]) -> Vec<usize> {
+    let mut v = Vec::new();
+    if blob.len() < 6 || blob[0..4] != [0x28, 0xb5, 0x2f, 0xfd] {
+        return v;
+    }
+    let fhd = blob[4];
+    let fcs_flag = fhd >> 6;
+    let single_segment = (fhd >> 5) & 1;
+    let dict_flag = fhd & 3;
+    let mut p = 5usize;
+    if single_segment == 0 {
+        p += 1; // window descriptor
+    }
+    p += [0usize, 1, 2, 4][dict_flag as usize];
+    p += match fcs_flag {
+        0 => single_segment as usize,
+        1 => 2,
+        2 => 4,
+        _ => 8,
+    };
+    loop {
+        if p + 3 > blob.len() {
+            break;
+        }
+        let h = blob[p] as usize | (blob[p + 1] as usize) << 8 | (blob[p + 2] as usize) << 16;
+        let last = h & 1;
+        let btype = (h >> 1) & 3;
+        let size = h >> 3;
+        p += 3 + if btype == 1 { 1 } else { size };
+        if p > blob.len() {
+            break;
+        }
+        v.push(p);
+        if last == 1 {
+            break;
+        }
+    }
+    v
 }
